@@ -315,7 +315,7 @@ func maybeSubtractFeeFromAmounts(
 // some validity checks.
 func PayToWitnessV0Address(encodedAddr string, netParams *config.Params) (pkScript []byte, err error) {
 	// Decode the provided wallet.
-	addr, err := massutil.DecodeAddress(encodedAddr, netParams)
+	addr, err := utils.DecodeAddress(encodedAddr, netParams)
 	if err != nil {
 		logging.CPrint(logging.WARN, "Failed to decode address", logging.LogFormat{
 			"err":     err,
